@@ -41,7 +41,7 @@ for pid in sorted(NOTES):
             "text": "Every schedule of each listed closed scenario with at most d deviations from the default schedule (d per scenario in the evidence, quick: >=1-2 plus deepening while a level fits the budget, thorough: >=2-3) is executed on the real implementation and checked by the oracle; the search is exhaustive within that bound, nothing is claimed beyond it. Scenarios: " + text,
             "design_ref": ref,
         },
-        "level_note": "Trusted/assumed: sequentially consistent interleavings only; generator context switch, crossbeam SegQueue/AtomicCell, std Arc/Once and the Linux kernel are uninstrumented (kernel determinism is checked by replay fingerprints); the cfg(may_verif) shims are behaviour preserving (the repo suite passes with them compiled in); bounded participants/operations per scenario.",
+        "level_note": "Trusted/assumed: sequentially consistent interleavings only (plus, in the store-buffer members of C05 / C10 / C11 / C12, one store-to-load reordering per thread for stores issued from sync/blocking.rs); generator context switch, crossbeam SegQueue/AtomicCell, std Arc/Once and the Linux kernel are uninstrumented (kernel determinism is checked by replay fingerprints); the cfg(may_verif) shims are behaviour preserving (the repo suite passes with them compiled in); bounded participants/operations per scenario.",
     })
 na = []
 for pid in sorted(props):
